@@ -89,4 +89,29 @@ def vmNested (configured n : Nat) : Option Nat :=
 def vmNestedOld (configured n : Nat) : Option Nat :=
   depthRun (vmCall (vmEffectiveLimitOld configured)) (List.replicate n Ev.call) 1
 
+/-! ### Sequential invocations
+
+A loop that makes `k` invocations one after the other, `base` Cadence invocations below the entry point.
+`perIter` is what one iteration contributes to an engine's depth trace: `[call, ret]` for an invocation
+that the engine counts (`seqCounted`), `[other]` for something it does not count (optional chaining on
+`nil`: nothing is invoked; a native function in the VM: no call frame). -/
+
+def seqCounted : List Ev := [.call, .ret]
+def seqUncounted : List Ev := [.other]
+
+def seqTrace (base k : Nat) (perIter : List Ev) : List Ev :=
+  List.replicate base Ev.call ++ (List.replicate k perIter).flatten
+
+def interpSeq (configured base k : Nat) (perIter : List Ev) : Option Nat :=
+  depthRun (interpCall (interpEffectiveLimit configured)) (seqTrace base k perIter) 0
+def vmSeq (configured base k : Nat) (perIter : List Ev) : Option Nat :=
+  depthRun (vmCall (vmEffectiveLimit configured)) (seqTrace base k perIter) 1
+
+/-- Destroying a resource whose type declares a `ResourceDestroyed` event.  The interpreter evaluates the
+event's default arguments in place (no invocation is reported); the VM (`Context.DefaultDestroyEvents`)
+invokes the generated method `$ResourceDestroyed`, which invokes the event's constructor: two nested call
+frames of compiled functions (the finding `vm-destroy-event-counts-call-frames`). -/
+def destroyEvInterp : List Ev := [.other]
+def destroyEvVM : List Ev := [.call, .call, .ret, .ret]
+
 end Verif.Model.Metered
